@@ -230,6 +230,7 @@ func runCaseInner(c Case) vlib.Result {
 			if e > len(wire) {
 				e = len(wire)
 			}
+			before, _ := cachedLen(wsc)
 			err := wsc.Parse(append([]byte(nil), wire[i:e]...))
 			fed = e
 			if err != nil {
@@ -237,8 +238,10 @@ func runCaseInner(c Case) vlib.Result {
 				break
 			}
 			if n, ok := cachedLen(wsc); ok {
-				if c.ReadLimit > 0 && n > c.ReadLimit+(e-i) {
-					res.Err = fmt.Errorf("after feeding %d bytes in reads of %d the connection caches %d unparsed bytes; ReadLimit is %d", fed, sz, n, c.ReadLimit)
+				// a single read may be larger than the limit (it is not "buffered" before it was looked at);
+				// once something is buffered, adding to it must never take the buffer beyond the limit
+				if c.ReadLimit > 0 && (n > c.ReadLimit+(e-i) || (before > 0 && n > c.ReadLimit)) {
+					res.Err = fmt.Errorf("after feeding %d bytes in reads of %d the connection caches %d unparsed bytes (%d before this read); ReadLimit is %d", fed, sz, n, before, c.ReadLimit)
 					return res
 				}
 			} else {
